@@ -111,10 +111,10 @@ def run(ctx):
     ctx.explanation = (
         "PROVED (Coq, coq/Props/C10.v) on the address-level stack machine model: growValueStack with the FIXED rebasing "
         "(live frames' fp, sp/fp, every upvalue on the open list, each exactly once) leaves the offset view unchanged for every "
-        "new base address (C10_grow_invisible); the formulas of the unfixed code do not (C10_grow_refuted_old: negated frame offsets, "
-        "open upvalues not rebased / negated / left in the old array); C10_run_indep: for every micro-op program satisfying the "
-        "closure discipline, the trace of reads is the same for every initial base/capacity and every placement of growth steps that "
-        "does not overflow the capacity. NOT PROVED, only differential-tested (stream c10.env): that the Go code is the model, "
+        "new base address (C10_grow_invisible); the formulas of the unfixed code do not (C10_grow_old_refuted: negated frame offsets, "
+        "open upvalues not rebased / negated / left in the old array). PROVED ONLY BOUNDED (C10_run_indep_bounded, exhaustive vm_compute "
+        "over traces of <= 6 operations from a 19-operation alphabet): reads are the same for two different initial bases/capacities and "
+        "any placement of growth steps that does not overflow the capacity. NOT PROVED, only differential-tested (stream c10.env): that the Go code is the model, "
         "everything outside the value stack (thread pool / queue / symbol-table presize / call-stack size), generators and async "
         "frames; growth is only triggered at calls (70% rule), so a single frame needing more than 30% of the stack still overflows "
         "silently - outside the model and outside what the generated programs reach.")
